@@ -101,25 +101,35 @@ class Impl:
                          'buf': [(k, 'W' if v == 'W' else list(v)) for k, v in buf], 'out': out})
 
 
+def lab(b8):
+    """label printed by the model as its 8 little-endian two's complement bytes"""
+    return int.from_bytes(bytes(b8), 'little', signed=True)
+
+
+def pc_expr(pc):
+    """Coq expression for a label, avoiding long numerals (slow to parse): dec_q of its 8 bytes."""
+    return '(dec_q %s)' % zlist(list((pc % 2 ** 64).to_bytes(8, 'little')))
+
+
 def model_obs(r):
     """Canonicalise one per-call element of the Coq `sim_c` result:
-    (pid, |bytes|, events, [(label, waiting?)], outs with Resolved payloads stripped)."""
+    (pid, |bytes|, events, [(label, waiting?)], outs)."""
     pid, nleft, evs, shape, outs = r
     pid = pid[1] if isinstance(pid, tuple) else None
     hs, deliv = None, []
     for e in evs:
-        if e[0] == 'Handshake':
+        if e[0] == 'PHandshake':
             hs = (e[1], [(list(S), list(k)) for S, k in e[2]])
         else:
-            deliv.append((e[1], list(e[2])))
-    resolved = sorted(o[1] for o in outs if isinstance(o, tuple) and o[0] == 'Resolved')
-    stored_n = sum(1 for o in outs if o == 'Stored')
-    dup = any(o == 'DupError' for o in outs)
+            deliv.append((lab(e[1]), list(e[2])))
+    resolved = sorted(lab(o[1]) for o in outs if isinstance(o, tuple) and o[0] == 'PResolved')
+    stored_n = sum(1 for o in outs if o == 'PStored')
+    dup = any(o == 'PDupError' for o in outs)
     rout = None
     if len(outs) == 1:
         o = outs[0]
-        rout = ('Got', list(o[1])) if isinstance(o, tuple) and o[0] == 'Got' else o
-    return {'pid': pid, 'nleft': nleft, 'hs': hs, 'deliv': deliv, 'shape': [(k, bool(w)) for k, w in shape],
+        rout = ('Got', list(o[1])) if isinstance(o, tuple) and o[0] == 'PGot' else str(o)[1:]
+    return {'pid': pid, 'nleft': nleft, 'hs': hs, 'deliv': deliv, 'shape': [(lab(k), bool(w)) for k, w in shape],
             'resolved': resolved, 'stored_n': stored_n, 'dup': dup, 'rout': rout}
 
 
@@ -160,7 +170,7 @@ def compare(impl_obs, model, allow_error=False):
             return {'what': bad, 'step': i, 'impl': str(o)[:400], 'model': str(mo)[:400]}
     if impl_obs:
         o = impl_obs[-1]
-        mb = [(k, 'W' if v == 'Waiting' else list(v[1])) for k, v in fbuf]
+        mb = [(lab(k), 'W' if v == 'Waiting' else list(v[1])) for k, v in fbuf]
         if o['left'] != list(fleft):
             return {'what': 'final leftover bytes', 'impl': str(o['left'])[:300], 'model': str(fleft)[:300]}
         if o['buf'] != mb:
@@ -174,7 +184,7 @@ def coq_inputs(inputs):
         if kind == 'C':
             parts.append('Chunk %s' % zlist(list(v)))
         else:
-            parts.append('Receive (%d)' % v)
+            parts.append('Receive %s' % pc_expr(v))
     return '[' + '; '.join(parts) + ']'
 
 
@@ -286,8 +296,13 @@ def run(ctx):
         got = struct.unpack_from('<qI', s)
         if got != (pc, len(p)) or s[12:] != p:
             ctx.violation('send-encoding', {'pc': pc, 'payload': p.hex()})
-        cexprs.append('(encode (%d, %s), try_frame (%s ++ [7; 7]))' % (pc, zlist(list(p)), zlist(list(s))))
+        cexprs.append('(encode (%s, %s), match try_frame (%s ++ [7; 7]) with Some (pc, p, r) => Some (enc_q pc, p, r) | None => None end)'
+                      % (pc_expr(pc), zlist(list(p)), zlist(list(s))))
         ctx.case({'codec': [pc, p.hex()]}, nontrivial=True, kind='codec')
+
+    # a few labels written/printed as plain numerals (everything else goes through 8-byte lists)
+    direct = [LO, HI, -1, 2 ** 32, -2 ** 40 + 3, rng.randrange(LO, HI + 1), rng.randrange(LO, HI + 1)]
+    dexprs = ['(enc_q (%d), dec_q %s)' % (pc, zlist(list(enc_ref(pc, b'')[:8]))) for pc in direct]
 
     # ---- A. exhaustive chunkings
     # A1: every composition of a single frame (payload 0, 1, 2 bytes): 2^11 + 2^12 + 2^13 streams
@@ -529,12 +544,17 @@ def run(ctx):
                     ctx.broken.append(d)
         cres = ctx.coq_eval(['MPyC.Frame'], cexprs, preamble='Local Open Scope Z_scope.\n', chunk=60)
         for r, (pc, p) in zip(cres, codec):
-            want = (list(enc_ref(pc, p)), ('Some', (pc, list(p), [7, 7])))
+            want = (list(enc_ref(pc, p)), ('Some', (list(enc_ref(pc, b'')[:8]), list(p), [7, 7])))
             if r != want:
                 mism += 1
                 if len(ctx.broken) < 20:
                     ctx.broken.append({'kind': 'correspondence', 'what': 'encode/try_frame', 'pc': pc, 'payload': p.hex(),
                                        'model': str(r)[:300]})
+        dres = ctx.coq_eval(['MPyC.Frame'], dexprs, preamble='Local Open Scope Z_scope.\n', chunk=60)
+        for r, pc in zip(dres, direct):
+            if r != (list(enc_ref(pc, b'')[:8]), pc):
+                mism += 1
+                ctx.broken.append({'kind': 'correspondence', 'what': 'enc_q/dec_q', 'pc': pc, 'model': str(r)[:300]})
         ctx.extra['traces_validated_against_impl'] = len(exprs) + len(cexprs) - mism
         ctx.log('model/implementation disagreements: %d of %d' % (mism, len(exprs) + len(cexprs)))
     ctx.notes.append('repeated labels: data_received raises AttributeError (bytes.set_result) on a second arrival under a label '
